@@ -76,7 +76,8 @@ Definition word_tokens (w : str) : list token :=
     (if mem_str lowered keywords then [kw_token lowered]
      else match clean2 with
           | [] => []
-          | _ => if is_quoted tok then [TStr] else [TLeaf (parse_check extra clean2)]
+          | _ => if is_quoted (if quote_test_on_clean then clean2 else tok)
+                 then [TStr] else [TLeaf (parse_check extra clean2)]
           end)
     ++ repeat TRp trail
   end.
